@@ -109,6 +109,11 @@ CONTRACTS.update({
     target='StatusAttribute.convert_status', props=['C05', 'C06', 'C12'], params={'val': 'opq:float'}, returns='int',
     raises={'ValueError': 'not float(val).is_integer() or (int(val) != 0 and int(val) != 1)'},
     ensures=[('the-integer-it-denotes', 'result == int(val)')]),
+ # ... whatever kind of number it is (np.float32(0.5) is not an instance of float; it used to be truncated to 0 - fix F19)
+ 'StatusAttribute.convert_status[other-number]': dict(
+    target='StatusAttribute.convert_status', props=['C05', 'C06', 'C12'], params={'val': 'opq:npfloat'}, returns='int',
+    raises={'ValueError': 'not float(val).is_integer() or (int(val) != 0 and int(val) != 1)'},
+    ensures=[('the-integer-it-denotes', 'result == int(val)')]),
  'FrameItem.convert_encrypted[int]': dict(
     target='FrameItem.convert_encrypted', props=['C05', 'C12'], params={'value': 'int'}, returns='int',
     raises={'ValueError': 'value != 0 and value != 1'}, ensures=[('kept', 'result == value')]),
@@ -156,10 +161,14 @@ for _mv in (True, False):
                 continue
             exp = 'conv(value)'
         CONTRACTS[f'Attribute.convert_value[multivalued={_mv},{_shape}]'] = dict(
-            target='Attribute.convert_value', props=['C05'],
+            target='Attribute.convert_value', props=['C05'] + (['C18', 'C14'] if _shape == 'list-of-2' else []),
             self_fields={'_multivalued': f'const:{_mv}', '_multidimensional': 'const:False', '_converter': 'stubfn1'},
             params={'value': _spec}, returns='opq:stored', may_raise=['StubException'],
-            ensures=[('each-value-converted-once-in-order', f'result == {exp}')])
+            ensures=[('each-value-converted-once-in-order', f'result == {exp}')] +
+                    # C18 / C14: the attribute holds a list of its OWN - a list the caller goes on using (one work list for the channels of
+                    # several frames) must not become part of the specification, and is left as it was
+                    ([('the-attribute-keeps-a-list-of-its-own-never-the-callers', 'result is not value')] if _shape == 'list-of-2' else []),
+            **({'modifies': [], 'exc_modifies': []} if _shape == 'list-of-2' else {}))
 SPEC_UFS['conv'] = (('opq',), 'opq')
 # C04 / C12: an attribute that is not multivalued is written with the default count 1, so it must never come to hold several values
 for _shape, _spec in (('list-of-2', 'list[opq:uval]*2'), ('tuple-of-2', 'tuple[opq:uval,opq:uval]'), ('empty-list', 'list[opq:uval]*0')):
